@@ -77,8 +77,7 @@ structure Mon where
   isw : Nat
   conn : Int := 65535       -- client view of the connection receive window
   ss : List CS := []
-  expLeak : Nat := 0        -- octets the three known defects are expected to have lost
-  leakClass : Option String := none
+  trigger : Option String := none   -- first situation met in which the unfixed code lost octets
   violated : Bool := false  -- the client itself exceeded a window: conservation no longer claimed
   od : Bool := false        -- an over-declared frame was dropped without debiting sc.inflow
   dead : Bool := false
@@ -87,9 +86,10 @@ structure Mon where
 
 def Mon.flag (m : Mon) (c : String) : Mon := if m.fail.isSome then m else { m with fail := some c }
 def Mon.tag (m : Mon) (t : String) : Mon := if m.tags.contains t then m else { m with tags := t :: m.tags }
+/-- note a situation in which octets are discarded (they must all be credited back) -/
 def Mon.leak (m : Mon) (n : Nat) (c : String) : Mon :=
   if n == 0 then m else
-  { m with expLeak := m.expLeak + n, leakClass := if m.leakClass.isSome then m.leakClass else some c }.tag c
+  { m with trigger := if m.trigger.isSome then m.trigger else some c }.tag c
 
 def csFind (l : List CS) (id : Nat) : Option CS := l.find? (·.id == id)
 def csUpd (l : List CS) (x : CS) : List CS := l.map fun y => if y.id == x.id then x else y
@@ -117,9 +117,9 @@ def credit (m : Mon) (fs : List String) : Mon :=
     else if f.startsWith "G" then { m with dead := true }
     else m) m
 
-/-- the stream disappears on the server; pooled buffers are released at once -/
+/-- the stream disappears on the server: its unread octets are discarded -/
 def streamGone (m : Mon) (c : CS) (handlerGone : Bool) : Mon :=
-  let lost := if handlerGone || m.isw == 65535 then c.held else 0
+  let lost := c.held
   let c' := { c with sendOpen := false, live := false, held := c.held - lost,
                      handler := c.handler && !handlerGone }
   ({ m with ss := csUpd m.ss c' }).leak lost "leak-unread-close"
@@ -227,15 +227,12 @@ def monFinish (m : Mon) : Mon :=
   else
     let held : Nat := (m.ss.map (·.held)).sum
     let imbalance : Int := 65535 - m.conn - held
-    let m := if imbalance != (m.expLeak : Int) then m.flag "leak-unexplained" else m
+    let m := if imbalance != 0 then m.flag ((m.trigger.getD "leak-unexplained")) else m
     -- stream level: a stream the client may still send on has window + unread octets = initial window
     let m := if m.ss.any (fun c => c.sendOpen && c.live && c.win + c.held != (m.isw : Int))
              then m.flag "stream-window-drift" else m
-    let m := if m.expLeak == 0 && held == 0 && m.tags.contains "accepted" then m.tag "nt" else m
-    let m := if m.expLeak == 0 && m.tags.contains "accepted" then m.tag "clean" else m
-    match m.leakClass with
-    | some c => if m.expLeak > 0 then m.flag c else m
-    | none => m
+    let m := if held == 0 && m.tags.contains "accepted" then m.tag "nt" else m
+    if m.trigger.isNone && m.tags.contains "accepted" then m.tag "clean" else m
 
 def run (op impl : String) : Ans :=
   match op.splitOn ";" with
